@@ -111,6 +111,8 @@ def cmp_tokens(a: list[str], b: list[str], rtol: float = RTOL) -> tuple[bool, st
     for k, (x, y) in enumerate(zip(a, b)):
         if x == y:
             continue
+        if {x, y} <= {"-", "x7ff0000000000000", "xfff0000000000000"}:
+            continue        # the implementation side prints +-inf as `-` (the model's `none`)
         if x.startswith("x") and y.startswith("x") and len(x) == 17 and len(y) == 17:
             if close(h2f(x[1:]), h2f(y[1:]), rtol):
                 continue
